@@ -345,6 +345,7 @@ def manual_clone_ok(view, m, T, fields):
         return False, "clone does not return a %s literal (%s)" % (T, term_str(r)[:120])
     if m.name == "clone_from":
         written = set()
+        where = {}
         for f in view.prog.family(m.key):
             for bi, b in enumerate(f.blocks):
                 if b["cleanup"]:
@@ -354,14 +355,26 @@ def manual_clone_ok(view, m, T, fields):
                         t = strip_fields_to_self(view.vp.place(f, s["place"]))
                         if t:
                             written.add(t)
+                            if f is m:
+                                where.setdefault(t, set()).add(bi)
                 t = b["term"]
                 if t["k"] == "call" and "func" in t and t["func"]["name"] in ("clone_from", "clone_into", "clone_from_slice"):
                     x = strip_fields_to_self(view.vp.operand(f, t["args"][0]))
                     if x:
                         written.add(x)
+                        if f is m:
+                            where.setdefault(x, set()).add(bi)
         missing = [f for f in fields if f not in written]
-        return (not missing), ("clone_from rewrites every field" if not missing else
-                               "clone_from leaves field(s) %s of the destination untouched" % missing)
+        if missing:
+            return False, "clone_from leaves field(s) %s of the destination untouched" % missing
+        # ... and on EVERY path: a clone_from that returns early (say, when the two already compare equal) leaves a
+        # destination that is not a structural copy of its source (equality is coarser than the representation)
+        for fname in fields:
+            if fname in where and 0 not in where[fname]:
+                esc = m.cfg.escape_path(0, where[fname])
+                if esc is not None:
+                    return False, "clone_from can return without rewriting field `%s` (path %s)" % (fname, esc)
+        return True, "clone_from rewrites every field on every path"
     return False, "unrecognised method %s in a hand-written Clone impl" % m.name
 
 
@@ -539,8 +552,9 @@ def r_capfwd(ctx, view):
                 # an explicit `return Err(..)` ends an error path as well: blocks that build the result as an `Err` literal
                 for bi2 in sorted(f.cfg.reach):
                     for st2 in f.blocks[bi2]["stmts"]:
-                        if st2["k"] == "assign" and st2["place"]["local"] == 0 and not st2["place"]["proj"] and st2["rv"]["k"] == "aggregate" \
-                                and st2["rv"].get("variant") == "Err":
+                        # (into the return place, or into the intermediate result of a `.and_then(..)` chain)
+                        if st2["k"] == "assign" and not st2["place"]["proj"] and st2["rv"]["k"] == "aggregate" \
+                                and st2["rv"].get("variant") == "Err" and st2["rv"].get("path", "").endswith("result::Result"):
                             err_blocks.add(bi2)
                 p = None if 0 in blocked else f.cfg.escape_path(0, blocked | err_blocks)
                 ok = p is None
@@ -834,6 +848,18 @@ def r_keymut(ctx, view, only=None):
                     found = True
                     ctx.ob("R-KEYMUT", "k4:Store::%s:%s" % (name, ev["name"]), ok, g.loc(ev["span"]),
                            "lookup key is %s (must be the `item` parameter unmodified)" % (term_str(a[1]) if len(a) > 1 else "?"))
+        if not found:
+            # written through a sibling lookup (`get_priority` = `self.get(item)?.1`): the key must be forwarded unchanged
+            for g in prog.family(f.key):
+                for bb, _ in g.calls():
+                    ci = view.fx.call_info(g, bb)
+                    if ci.local_callee and ci.local_callee != f.key and ci.local_callee in ["store::Store::" + n for n in LOOKUPS]:
+                        a = view.fx.args_vp(ci)
+                        ok = len(a) >= 2 and is_param(a[1], 2)
+                        found = True
+                        ctx.ob("R-KEYMUT", "k4:Store::%s:%s" % (name, ci.local_callee.split("::")[-1]), ok, g.loc(ci.span),
+                               "delegates to Store::%s with key %s (must be the `item` parameter unmodified)" % (
+                                   ci.local_callee.split("::")[-1], term_str(a[1]) if len(a) > 1 else "?"))
         ctx.anchor("Store::%s performs a keyed map lookup" % name, found)
         for Q in QUEUES:
             q = prog.fn("%s::%s" % (Q, name))
